@@ -23,6 +23,8 @@ type c19Exchange struct {
 	Backend      string `json:"backend"`
 	User         string `json:"user"`
 	Path         string `json:"path"`
+	URL          string `json:"url,omitempty"`
+	Chain        string `json:"chain,omitempty"` // URL-reuse history this exchange belongs to: "<shape>#<step>"
 	Method       string `json:"method"`
 	ReqSize      int    `json:"req_size"`
 	RespSize     int    `json:"resp_size"`
@@ -61,11 +63,18 @@ func c19SizeCls(n int) string {
 		return "2M..3M"
 	case n <= 3000001:
 		return fmt.Sprintf("3M%+d", n-3000000)
+	case n < 10999999:
+		return "3M..11M"
+	case n <= 11000001:
+		return fmt.Sprintf("11M%+d", n-11000000)
 	}
-	return ">3M"
+	return ">11M"
 }
 
 func (e *c19Exchange) class() string {
+	if e.Chain != "" {
+		return fmt.Sprintf("url-reuse|%s|%s|%d|cache-control:%v", e.Chain, e.Method, e.Status, e.CacheControl)
+	}
 	return fmt.Sprintf("exchange|%s|req:%s|resp:%s|%d|answered:%v|cache-control:%v", e.Method, c19SizeCls(e.ReqSize), c19SizeCls(e.RespSize), e.Status, e.Answer, e.CacheControl)
 }
 
@@ -103,7 +112,12 @@ func c19Generate(r *core.Run) []c19Exchange {
 		exs[len(exs)-1].Status = 200
 		exs[len(exs)-1].CacheControl = len(exs)%2 == 0
 	}
+	// more than 11 overflow parts (names ...part10, part11 sort before ...part2): legal, App Engine takes 32 MB
 	if !r.Quick() {
+		add("POST", 11000001, 12345678, true)
+		add("PUT", 12345678, 11000001, true)
+		add("POST", 25000000, 1024, true)
+		add("GET", 0, 25000000, true)
 		for len(exs) < 2400 {
 			rq, rs := 200+rng.Intn(60000), 200+rng.Intn(60000)
 			if rng.Intn(100) < 15 {
@@ -120,6 +134,73 @@ func c19Generate(r *core.Run) []c19Exchange {
 		}
 	}
 	return exs
+}
+
+// c19Chains generates the URL-reuse histories: sequences of requests by one
+// or two users to one URL, run in order. Each chain has a URL of its own.
+func c19Chains(r *core.Run) [][]c19Exchange {
+	rng := r.Rand("c19-chains")
+	type step struct {
+		method string
+		status int
+		cc     bool
+		other  bool // issued by the second user
+	}
+	shapes := map[string][]step{
+		"POST>GET":             {{"POST", 200, false, false}, {"GET", 200, false, false}},
+		"PUT>GET":              {{"PUT", 200, false, false}, {"GET", 200, true, false}},
+		"DELETE>GET":           {{"DELETE", 200, false, false}, {"GET", 200, false, false}},
+		"GET>GET":              {{"GET", 200, false, false}, {"GET", 200, false, false}},
+		"GET>GET>POST>GET":     {{"GET", 200, false, false}, {"GET", 201, false, false}, {"POST", 200, false, false}, {"GET", 200, false, false}},
+		"GET>otherGET":         {{"GET", 200, false, false}, {"GET", 200, false, true}},
+		"POST>otherGET>GET":    {{"POST", 200, false, false}, {"GET", 200, false, true}, {"GET", 200, false, false}},
+		"GETcc>GET":            {{"GET", 200, true, false}, {"GET", 200, false, false}},
+		"GET404>GET":           {{"GET", 404, false, false}, {"GET", 200, false, false}},
+		"POSTcc>GET":           {{"POST", 200, true, false}, {"GET", 200, false, false}},
+		"POST500>GET":          {{"POST", 500, false, false}, {"GET", 200, false, false}},
+		"GET>POST>GET>PUT>GET": {{"GET", 200, false, false}, {"POST", 200, false, false}, {"GET", 200, false, false}, {"PUT", 200, false, false}, {"GET", 200, false, false}},
+	}
+	var names []string
+	for n := range shapes {
+		names = append(names, n)
+	}
+	sort.Strings(names)
+	var chains [][]c19Exchange
+	mk := func(name string, steps []step) {
+		ci := len(chains)
+		b := c19Backends[1] // registered for allUsers: both users are routed to it
+		url := fmt.Sprintf("%sreuse/s%dc%d?v=%d", b.Prefixes[0], r.Seed, ci, rng.Intn(1000))
+		var ch []c19Exchange
+		for i, st := range steps {
+			user := fmt.Sprintf("reuser%d@example.com", ci)
+			if st.other {
+				user = fmt.Sprintf("other%d@example.com", ci)
+			}
+			size := 0
+			if st.method != "GET" {
+				size = 600 + rng.Intn(2000)
+			}
+			ch = append(ch, c19Exchange{Tok: fmt.Sprintf("s%dc%dx%d", r.Seed, ci, i), Backend: b.ID, User: user, Path: b.Prefixes[0], URL: url, Chain: fmt.Sprintf("%s#%d", name, i),
+				Method: st.method, ReqSize: size, RespSize: 400 + rng.Intn(3000), Status: st.status, CacheControl: st.cc, Answer: true})
+		}
+		chains = append(chains, ch)
+	}
+	for _, n := range names {
+		mk(n, shapes[n])
+	}
+	if !r.Quick() {
+		methods := []string{"GET", "GET", "GET", "POST", "PUT", "DELETE"}
+		for k := 0; k < 150; k++ {
+			var steps []step
+			name := "random"
+			for i, n := 0, 3+rng.Intn(5); i < n; i++ {
+				st := step{methods[rng.Intn(len(methods))], []int{200, 200, 200, 404, 500}[rng.Intn(5)], rng.Intn(4) == 0, rng.Intn(4) == 0}
+				steps = append(steps, st)
+			}
+			mk(name, steps)
+		}
+	}
+	return chains
 }
 
 var c19IDRe = regexp.MustCompile(`"[^"]*"`)
@@ -176,11 +257,12 @@ type c19PlanRec struct {
 // C19 — the App Engine proxy relays each request and its response intact.
 func C19(r *core.Run) {
 	r.Level = "fault_enumeration"
-	r.SetRule("(a) concurrent client handlers + agent pollers (list/fetch/post) in one world with unique tokens: every request size x response size over {1 KiB, 999 999, 1 000 000, 1 000 001, 1 999 999, 2 000 000, 2 000 001, 3.5 MB} (sizes of the serialised messages, hit exactly), POST/PUT/GET, statuses, cacheable and not, requests never answered (504); (b) store-level write/read-back of requests and responses at the size boundaries on the persistent store, the caching store and the caching store with memcache failing; (c) fault plans: one exchange per plan in a world of its own, failing the n-th call of each (service, method, entity kind) seen at each endpoint, and every pair of them for the response post; class = (phase, method, request size class, response size class, status, answered, cache-control) for exchanges, (stack, kind, size class) for blobs, (endpoint, failed operations, payload class) for fault plans")
-	r.Assume("T = 45 s progress bound per handler call (designed waits are 30 s; fault-free calls take < 3 s); a call exceeding it is re-run alone in a fresh process before it is reported; under an injected fault the client may receive a proxy-generated 404/500/504 instead of the response; the memcache GET-response cache is not judged (unique URLs); datastore transactions are not isolated by the fake")
+	r.SetRule("(a) concurrent client handlers + agent pollers (list/fetch/post) in one world with unique tokens: every request size x response size over {1 KiB, 999 999, 1 000 000, 1 000 001, 1 999 999, 2 000 000, 2 000 001, 3.5 MB} (sizes of the serialised messages, hit exactly), POST/PUT/GET, statuses, cacheable and not, requests never answered (504), one exchange with > 11 overflow parts (11 000 001 / 12 345 678 bytes; thorough up to 25 MB); (a2) URL-reuse histories: sequences POST>GET, PUT>GET, DELETE>GET, GET>GET, other-user GETs, uncacheable variants (thorough: 150 random ones) on one URL each, run in order; (b) store-level write/read-back of requests and responses at the size boundaries on the persistent store, the caching store and the caching store with memcache failing; (c) fault plans: one exchange per plan in a world of its own, failing the n-th call of each (service, method, entity kind) seen at each endpoint, and every pair of them for the response post; class = (phase, method, request size class, response size class, status, answered, cache-control) for exchanges, (stack, kind, size class) for blobs, (endpoint, failed operations, payload class) for fault plans")
+	r.Assume("T = 45 s progress bound per handler call (designed waits are 30 s; fault-free calls take < 3 s); a call exceeding it is re-run alone in a fresh process before it is reported; under an injected fault the client may receive a proxy-generated 404/500/504 instead of the response; a client must receive the response posted under its own request ID, except that a GET may be answered with a byte-identical replay of a cacheable response (200, no Cache-Control) delivered earlier to the same user for a GET of the same URL (the documented GET cache); datastore transactions are not isolated by the fake")
 	bin := r.MustBuild(e3Build(r))
 	exs := c19Generate(r)
-	blobs := append([]int{0, 1, 2999999, 3000000, 3000001}, c19Sizes...)
+	blobs := append([]int{0, 1, 2999999, 3000000, 3000001, 11000001}, c19Sizes...)
+	chains := c19Chains(r)
 	if !r.Quick() {
 		rng := r.Rand("c19-blobs")
 		for k := 1; k <= 5; k++ {
@@ -191,6 +273,7 @@ func C19(r *core.Run) {
 		for i := 0; i < 20; i++ {
 			blobs = append(blobs, rng.Intn(4200000))
 		}
+		blobs = append(blobs, 10999999, 11000000, 12000001, 12345678, 25000000)
 	}
 	tmpl := func(tok string, rq, rs int) c19Exchange {
 		return c19Exchange{Tok: tok, Backend: "bkF", User: "uf@example.com", Path: "/f/", Method: "POST", ReqSize: rq, RespSize: rs, Status: 200, Answer: true}
@@ -201,16 +284,23 @@ func C19(r *core.Run) {
 			"nth": []int{1, 2}, "timeouts": true, "workers": 16}
 	}
 	const T = 45000
-	spec := map[string]interface{}{"mode": "c19", "t_ms": T, "conc": 16, "backends": c19Backends, "exchanges": exs, "blobs": blobs, "faults": faults}
+	spec := map[string]interface{}{"mode": "c19", "t_ms": T, "conc": 16, "backends": c19Backends, "exchanges": exs, "chains": chains, "blobs": blobs, "blob_big_all_stacks": !r.Quick(), "faults": faults}
 	res := e3Run(r, bin, "c19", spec, time.Duration(r.Pick(300, 1200))*time.Second)
 
 	byTok := map[string]*c19Exchange{}
 	for i := range exs {
 		byTok[exs[i].Tok] = &exs[i]
 	}
+	nChainSteps := 0
+	for ci := range chains {
+		for i := range chains[ci] {
+			byTok[chains[ci][i].Tok] = &chains[ci][i]
+			nChainSteps++
+		}
+	}
 	var plans []*c19PlanRec
 	var hangRerun []c19Exchange
-	nEx, nBlob, exact, maxMs, maxClientMs := 0, 0, 0, int64(0), int64(0)
+	nEx, nBlob, exact, maxMs, maxClientMs, replays := 0, 0, 0, int64(0), int64(0), 0
 	got504 := 0
 	for _, ln := range res.Lines {
 		var probe struct {
@@ -234,6 +324,7 @@ func C19(r *core.Run) {
 				Viol      []c19Viol `json:"viol"`
 				SizeExact bool      `json:"req_size_exact"`
 				Inconcl   string    `json:"inconclusive"`
+				ReplayOf  string    `json:"replay_of"`
 				Serial    int       `json:"req_serial_len"`
 				Fetched   int       `json:"fetched_len"`
 			}
@@ -247,6 +338,12 @@ func C19(r *core.Run) {
 			r.Case(ex.class())
 			if rec.SizeExact {
 				exact++
+			}
+			if rec.ReplayOf != "" {
+				replays++
+			}
+			if ex.Chain != "" && strings.HasSuffix(ex.Chain, "#1") {
+				r.Sample(map[string]interface{}{"url_reuse_step": ex, "observed": json.RawMessage(ln)})
 			}
 			if rec.Inconcl != "" {
 				r.Inconclusive("exchange " + rec.Ex + ": " + rec.Inconcl)
@@ -405,13 +502,16 @@ func C19(r *core.Run) {
 		}
 	}
 
-	if res.SawEnd && nEx != len(exs) {
-		r.Broken(fmt.Sprintf("C19: %d of %d exchanges reported", nEx, len(exs)))
+	if res.SawEnd && nEx != len(exs)+nChainSteps {
+		r.Broken(fmt.Sprintf("C19: %d of %d exchanges reported", nEx, len(exs)+nChainSteps))
 	}
 	if res.SawEnd && nPlans < r.Pick(40, 150) {
 		r.Broken(fmt.Sprintf("C19: only %d fault plans were executed", nPlans))
 	}
 	r.Set("exchanges", nEx)
+	r.Set("url_reuse_histories", len(chains))
+	r.Set("url_reuse_requests", nChainSteps)
+	r.Set("url_reuse_requests_served_a_legitimate_replay", replays)
 	r.Set("exchanges_request_size_hit_exactly", exact)
 	r.Set("blob_round_trips", nBlob)
 	r.Set("fault_plans", nPlans)
